@@ -18,6 +18,7 @@ import (
 
 	"verif/internal/ev"
 	"verif/internal/harness"
+	"verif/internal/known"
 	"verif/internal/lab"
 	"verif/internal/projgen"
 )
@@ -107,12 +108,56 @@ func buildProject(p *projgen.Project, rec *ev.Recorder, withHarness bool) (*buil
 	gm, _ := os.ReadFile(filepath.Join(dir, "go.mod"))
 	gm = append(gm, []byte("\nrequire pgregory.net/rapid v1.3.0\n")...)
 	_ = os.WriteFile(filepath.Join(dir, "go.mod"), gm, 0o644)
-	if gs, err := os.ReadFile("/verif/go.sum"); err == nil {
+	if gs, err := os.ReadFile(filepath.Join(known.Root(), "go.sum")); err == nil {
 		_ = os.WriteFile(filepath.Join(dir, "go.sum"), gs, 0o644)
 	}
 	b.res = lab.RunInProcess(dir, lab.Want{Engines: projgen.Engines, Versions: []string{"3.0.0"},
 		AuthPkg: func(e string) string { return projgen.Module + "/auth" + e }})
+	if b.res.Accepted() && withHarness {
+		if err := cliRoutesForOneEngine(p, b, rec); err != nil {
+			b.cleanup()
+			return nil, err
+		}
+	}
 	return b, nil
+}
+
+// cliRoutesForOneEngine replaces the routes file of one engine (a function of the project) by the one the real
+// command `gleece generate spec-and-routes` writes. The in-process path gives every emission its own copy of the
+// analysis result; the command does not, so whatever one emission does to the data the next one sees (and the
+// order in which the command emits) is only visible through the command.
+func cliRoutesForOneEngine(p *projgen.Project, b *built, rec *ev.Recorder) error {
+	pb, _ := json.Marshal(p)
+	e := projgen.Engines[int(ev.Hash(string(pb))%uint64(len(projgen.Engines)))]
+	cfg := p.Config
+	cfg.Engine = e
+	cfg.RoutesOut = "./routes_" + e + "/gleece.go"
+	cfg.AuthPkg = projgen.Module + "/auth" + e
+	doc, _ := json.MarshalIndent(cfg.ConfigJSON(), "", "\t")
+	cfgName := "gleece.cli." + e + ".json"
+	if err := os.WriteFile(filepath.Join(b.dir, cfgName), doc, 0o644); err != nil {
+		return err
+	}
+	bin, err := lab.BuildCLI("")
+	if err != nil {
+		return err
+	}
+	inProcess := b.res.Routes[e]
+	cli := lab.RunCLI(bin, b.dir, 3*time.Minute, nil, "generate", "spec-and-routes", "-c", "./"+cfgName)
+	if rec != nil {
+		rec.Label("cli-routes-engine:"+e, 1)
+	}
+	if cli.TimedOut || cli.Exit != 0 {
+		return fmt.Errorf("the in-process pipeline accepted the project but `gleece generate spec-and-routes` (engine %s) exited %d: %s", e, cli.Exit, tail(cli.Output(), 600))
+	}
+	out, err := os.ReadFile(filepath.Join(b.dir, "routes_"+e, "gleece.go"))
+	if err != nil {
+		return fmt.Errorf("`gleece generate spec-and-routes` exited 0 without writing the routes file: %v", err)
+	}
+	if rec != nil && string(out) != string(inProcess) {
+		rec.Label("cli-routes-differ-from-in-process", 1)
+	}
+	return nil
 }
 
 func goRun(dir string, timeout time.Duration, env []string, args ...string) (string, error) {
